@@ -12,10 +12,18 @@ liveness WaitTerminates under weak fairness)  +  binding to app/core/hydra/swamp
   Trace_Vigil (unlogged internal steps are searched).  A run that only the deviation "LostWakeup" explains is
   the known finding D_C17_LostWakeup; a run no spec explains, or a stuck wait that the deviation does not
   explain, is a violation.
+
+Summon waits (the requests that wait for one another or for a closing swamp inside Hydra.SummonSwamp): spec/Summon.tla
+models the waiter mutex, cond.Wait, context cancellation of waiting summoners and the wait for a closing swamp; TLC
+checks deadlock / NoStuck / SummonTerminates; gate schedules (cancelled contexts in the alphabet) are run on the real
+Hydra by harness/cmd/summon and validated against Trace_Summon.  A summoner that is still inside SummonSwamp at the
+final point of rest (blocked in sync.Mutex.Lock / sync.Cond.Wait / WaitForGracefulClose although the spec says it
+can proceed or has returned) is a C17 violation.  (One-live-instance verdicts of the same runs belong to C18.)
 """
 import json, os, random, shutil
 from concurrent.futures import ThreadPoolExecutor
 import vlib, edges
+import summoncommon as sc
 
 DEV = "LostWakeup"
 FID = "D_C17_LostWakeup"
@@ -215,6 +223,36 @@ def judge(ctx, batch):
     return out
 
 
+def judge_summon(ctx, b):
+    """Termination of the summon waits. Everything else about these runs (instances, map) is C18's."""
+    verdict, detail = b.classify()
+    out = dict(strict=0, asbuilt=0, rejected=0, unvalidated=0, skipped=0, stuck=0)
+    for i, res in enumerate(b.results):
+        cmds = res["cmds"]
+        ctx.count_case([[x["a"], x["p"], x["x"]] for x in cmds], nontrivial=len(cmds) >= 4)
+        if res.get("skip"):
+            out["skipped"] += 1
+            continue
+        v = verdict[i]
+        if v is None:
+            out["unvalidated"] += 1
+            continue
+        out[v] += 1
+        ctx.cov["traces_validated_against_impl"] += 1
+        if not res["stuck"]:
+            continue
+        out["stuck"] += 1
+        sched = [x["a"] + ":" + (x["p"] or str(x["x"])) for x in cmds[:res["executed"]]]
+        blocked = {p: o for p, o in (res.get("stuck_obs") or {}).items() if o not in ("idle", "done")}
+        ctx.deviation(None, "a SummonSwamp call never returns: after %s (and after everything in flight was allowed to finish) the real Hydra is at rest with %s "
+                            "(mutexwait = blocked in sync.Mutex.Lock on the waiter mutex, parked = sync.Cond.Wait, waitclose = WaitForGracefulClose); the spec "
+                            "(verdict of the log: %s) lets every summoner return" % (sched, blocked, v),
+                      dict(kind="summon-schedule", cmds=cmds[:res["executed"]], lines=[json.loads(x) for x in b.run_lines(i)]))
+    if out["skipped"] > max(3, len(b.results) // 10):
+        raise vlib.Inconclusive("%d of %d summon runs hit the 30 s WaitForGracefulClose bound (machine too slow)" % (out["skipped"], len(b.results)))
+    return out
+
+
 def run(ctx):
     thorough = ctx.tier == "thorough"
     rng = random.Random(ctx.seed)
@@ -236,6 +274,12 @@ def run(ctx):
                      name="edges-strict", count_states=False, timeout=3000)
     f_ea = ex.submit(ctx.tlc, "MC_Vigil", cfg_text=mc_cfg(ops2, w2, 1, DEV, "ACTION_CONSTRAINT ExportEdge OnlyDev\n"), workers=1, deadlock=False,
                      name="edges-asbuilt", count_states=False, timeout=3000)
+    # summon waits
+    sbin = ctx.go_build("summon")
+    f_sm = ex.submit(ctx.tlc, "MC_Summon", cfg_text=sc.mc_cfg(2, 2, 2, 3, None, "INVARIANTS TypeOK NoStuck ParkedHasOwner ParkedConsistent\nPROPERTIES SummonTerminates\n"),
+                     name="mc-summon-2s2c", workers=4, timeout=6000)
+    f_se = ex.submit(sc.export_schedules, ctx, 3, 1, 1, 3, "edges-summon-3s")
+    f_se2 = ex.submit(sc.export_schedules, ctx, 2, 1, 2, 2, "edges-summon-2s-close")
     f_asb = f_asb_live = None
     if thorough:
         f_asb = ex.submit(ctx.tlc, "MC_Vigil", cfg_text=mc_cfg(ops2, w2, 2, DEV, INV + LIVE), name="mc-asbuilt-witness", count_states=False,
@@ -293,6 +337,12 @@ def run(ctx):
     b = Batch(ctx, "schedules", binary)
     if ctx.replay:
         rp = json.load(open(ctx.replay))["replay"]
+        if rp.get("kind") == "summon-schedule":
+            sb = sc.SummonBatch(ctx, "summon", sbin)
+            sb.run_tests("replay", [rp["cmds"]])
+            ctx.extra["summon_verdicts"] = judge_summon(ctx, sb)
+            ctx.cov["rule"] = "replay of one recorded summon schedule"
+            return
         if rp.get("kind") == "schedule":
             b.run_tests("replay", [rp["cmds"]])
             ctx.extra["verdicts"] = judge(ctx, b)
@@ -320,6 +370,29 @@ def run(ctx):
     for kind in ("edges-strict", "edges-asbuilt", "random"):
         rs = [r_ for r_ in b.results if r_["kind"] == kind]
         ctx.sample(dict(kind="schedule run on the real vigil (%s)" % kind, cmds=[c_["a"] + ":" + c_["p"] for c_ in rs[len(rs) // 2]["cmds"]]))
+
+    # 3b. summon waits on the real Hydra
+    r = f_sm.result()
+    if not r.ok:
+        raise vlib.Inconclusive("strict Summon spec does not satisfy NoStuck / SummonTerminates: %s %s" % (r.violated, (r.error or "")[:300]))
+    ctx.extra["mc_summon"] = r.summary()
+    se, si = f_se.result()
+    se2, si2 = f_se2.result()
+    ctx.extra["summon_graphs"] = dict(three_summoners=si, two_summoners_with_close=si2)
+    # schedules in which somebody's context is cancelled first (they exercise the exits of the wait loop), then the rest
+    canc = [t for t in se if any(c["a"] == "Cancel" for c in t)]
+    pick = rng.sample(canc, min(len(canc), 1200 if thorough else 160)) + rng.sample(se, min(len(se), 800 if thorough else 80)) \
+        + rng.sample(se2, min(len(se2), 600 if thorough else 80))
+    sb = sc.SummonBatch(ctx, "summon", sbin)
+    sb.run_tests("summon-edges", pick)
+    sb.run_random("summon-random", 200 if thorough else 50, 3, 20, ctx.seed * 104729 + 11)
+    ctx.extra["summon_verdicts"] = judge_summon(ctx, sb)
+    ctx.extra["summon_driver_wall_s"] = round(sb.driver_wall, 1)
+    ctx.cov["evaluations"] += len(sb.lines)
+    rs = [r_ for r_ in sb.results if any(c["a"] == "Cancel" for c in r_["cmds"])]
+    if rs:
+        ctx.sample(dict(kind="summon schedule with a cancelled context run on the real Hydra", cmds=[c["a"] + ":" + (c["p"] or str(c["x"])) for c in rs[len(rs) // 2]["cmds"]],
+                        stuck=rs[len(rs) // 2]["stuck"]))
 
     # 4. binding self-test (thorough): a corrupted / truncated log must be rejected
     if thorough:
